@@ -262,7 +262,7 @@ pub fn cases(prop: &str, tier: &str, ctx: &mut Ctx, rng: &mut Rng) {
         "C17" => {
             let gc = GenCfg::default();
             let mut regs: Vec<serde_json::Value> = corp.iter().map(|(_, rj, _)| rj.clone()).collect();
-            for _ in 0..(150 * scale) {
+            for _ in 0..(80 * scale) {
                 let p = reggen::rand_program(rng, &gc);
                 let (rj, _) = reggen::build(&p);
                 regs.push(rj);
@@ -271,9 +271,14 @@ pub fn cases(prop: &str, tier: &str, ctx: &mut Ctx, rng: &mut Rng) {
                 let reg = reggen::to_registry(rj);
                 let n = reg.types.len();
                 let spec = rand_settings(rng, &reg, &SetCfg { derives: true, substitutes: true, switches: true, missing_paths: false });
-                for _ in 0..2 {
+                let nperm = if n <= 40 { 5 } else { 2 };
+                for k in 0..nperm {
                     let mut perm: Vec<usize> = (0..n).collect();
-                    rng.shuffle(&mut perm);
+                    if k == 0 {
+                        perm.reverse();
+                    } else {
+                        rng.shuffle(&mut perm);
+                    }
                     let r2j = renumber(rj, &perm);
                     let r2 = reggen::to_registry(&r2j);
                     ctx.push_pair("renumbered", "renumbered", (&reg, &spec), (&r2, &spec));
